@@ -96,7 +96,9 @@ class TokenManager(interfaces.RequestInterface, interfaces.TokenManager):
         stoppers = []
         for key, request in self.outgoing_requests.items():
             (token, request_remote) = key
-            if request_remote == remote:
+            # (multicast requests are filed without a remote: no single
+            # peer's error concerns them)
+            if request_remote is not None and request_remote == remote:
                 stoppers.append(
                     lambda request=request, exception=exception: request.add_exception(
                         exception
